@@ -10,20 +10,20 @@ from sx.runner import Harness
 ID = "C18"
 MANIFEST = {
     "technique": "bounded model checking with solver-decided choice (SX engine): the shape of every slot of a package image (file / symlink / fifo, hardlink partner, odd modes, a name with a space, symlinks to a directory, to a file and dangling) and of the pre-existing root (absent, same type, other type, directory reached through a symlink, dangling symlink in the way of a directory, unrelated neighbours) and the spelling of the offset are symbolic selectors; the engine forks over every feasible combination, builds both trees on a real scratch directory, runs the real livefs.scan + ops.merge_contents (copyfile, ensure_perms, do_link, mkdir) and compares lstat/data/readlink/inode snapshots before and after with the specification",
-    "level_text": "Bounded model checking, exhaustive within the bound: 3 x 3 x 4 image shapes x 3 x 3 x 3 x 3 root shapes x 2 offset spellings (5832 merges): every entry exists at its location (through a pre-existing symlinked directory where there is one) with its type, data, symlink target and recorded mtime; created entries carry the recorded mode and ownership; files sharing an inode in the image share one in the root; pre-existing directories keep their permissions; no other path is created (no '#new' left-overs), changed or removed. Selector-only; real code on real files.",
+    "level_text": "Bounded model checking, exhaustive within the bound: 3 x 3 x 4 image shapes x 3 x 5 x 2 x 3 x 3 root shapes x 2 offset spellings (19440 merges): every entry exists at its location (through a pre-existing symlinked directory where there is one) with its type, data, symlink target and recorded mtime; created entries carry the recorded mode and ownership; files sharing an inode in the image share one in the root; pre-existing directories keep their permissions; no other path is created (no '#new' left-overs), changed or removed. Selector-only; real code on real files.",
     "level_note": "selector-only harness (labelled as such). Runs as the sandbox user (root), ownership 0:0. Directory mtimes are not compared (creating a child changes them).",
 }
 META = {
     "modules": ["pkgcore.fs.ops", "pkgcore.fs.livefs", "pkgcore.fs.contents"],
     "functions": ["ops.merge_contents", "ops.copyfile", "ops.ensure_perms", "ops.do_link", "ops.mkdir", "livefs.scan/gen_obj", "contents.offset_rewriter"],
-    "bounds": {"quick": "menus of props/mergefs.py: 6 image slots, 4 root slots, 2 offset spellings", "thorough": "same (the space is swept completely in both tiers)"},
+    "bounds": {"quick": "menus of props/mergefs.py: 6 image slots, 5 root slots, 2 offset spellings", "thorough": "same (the space is swept completely in both tiers)"},
     "outside": ["device nodes", "a package symlink over a live directory (CannotOverwrite handling)", "cross-device hardlinks (EXDEV)", "non-root ownership", "trees deeper than two levels"],
     "assumptions": [],
     "selector_only": True,
 }
 
-SEL = ["new_f", "new_g", "new_l", "pre_d", "pre_f", "pre_s", "pre_l"]
-MENUS = {"new_f": M.NEW_F, "new_g": M.NEW_G, "new_l": M.NEW_L, "pre_d": M.PRE_D, "pre_f": M.PRE_F, "pre_s": M.PRE_S, "pre_l": M.PRE_L}
+SEL = ["new_f", "new_g", "new_l", "pre_d", "pre_f", "pre_g", "pre_s", "pre_l"]
+MENUS = {"new_f": M.NEW_F, "new_g": M.NEW_G, "new_l": M.NEW_L, "pre_d": M.PRE_D, "pre_f": M.PRE_F, "pre_g": M.PRE_G, "pre_s": M.PRE_S, "pre_l": M.PRE_L}
 
 
 def phys(loc, c):
@@ -88,7 +88,9 @@ def judge(c, img, before, after, exc):
         ka = {k: v for k, v in a.items() if not (k == "mtime" and stat.S_ISDIR(a["type"]))}
         kb = {k: v for k, v in b.items() if not (k == "mtime" and stat.S_ISDIR(b["type"]))}
         if ka != kb:
-            problems.append(f"{p}: changed although not in the contents ({kb} -> {ka})")
+            # inode numbers differ from run to run: keep them out of the text
+            ka.pop("ino"), kb.pop("ino")
+            problems.append(f"{p}: changed although not in the contents ({kb} -> {ka})" if ka != kb else f"{p}: replaced by another inode although not in the contents")
     for p in after:
         if p not in before and p not in owned:
             problems.append(f"{p}: created although not in the contents")
@@ -139,5 +141,5 @@ def obligations(tier, seed):
         {"oid": f"pre-existing /d={M.PRE_D[i]}|/l={M.NEW_L[j]}|/d/f={M.NEW_F[k]}", "pre_d": i, "new_l": j, "new_f": k, "max_paths": 100000, "max_s": 2400}
         for i in range(len(M.PRE_D)) for j in range(len(M.NEW_L)) for k in range(len(M.NEW_F))
     ]
-    UNIVERSE[tier] = {"merges": 5832}
+    UNIVERSE[tier] = {"merges": 19440}
     return obs
